@@ -1,5 +1,7 @@
 /- C11 invariants, part 6: static ghost fields; publication (who may hold a reference to an object) -/
 import SemaModel.C11.Inv5
+set_option linter.unusedSimpArgs false
+set_option linter.unusedVariables false
 namespace Sema.C11
 
 set_option maxHeartbeats 1000000 in
